@@ -326,6 +326,27 @@ func Explicit(t *rapid.T, o DataOpts) *DataSpec {
 			rows = append(rows, model.Row{base + w[:k]: w[k:], base: "other"})
 		}
 	}
+	// length-field wrap twins: a column name longer than 255 / 65,535 bytes, and
+	// the pair obtained by cutting the name at its length modulo 2^8 / 2^16 and
+	// moving the rest in front of the value - whoever stores the length of a
+	// name in too few bits cannot tell them apart
+	if rapid.IntRange(0, 39).Draw(t, "longname") == 0 {
+		ln := rapid.SampledFrom([]int{300, 65536 + 44, 70000}).Draw(t, "longnamelen")
+		mod := 65536
+		if ln < 65536 {
+			mod = 256
+		}
+		name := strings.Repeat("x", ln)
+		v := rapid.SampledFrom([]string{"v", "", "x"}).Draw(t, "longnameval")
+		cut := ln % mod
+		n1 := rapid.IntRange(1, 2).Draw(t, "longn1")
+		for i := 0; i < n1; i++ {
+			rows = append(rows, model.Row{name: v})
+		}
+		for i := 0; i < n1+1; i++ {
+			rows = append(rows, model.Row{name[:cut]: name[cut:] + v})
+		}
+	}
 	// ordering confusers: values that are prefixes of each other up to a NUL or
 	// another low byte (tuple order is byte-wise; joined sort keys break here)
 	if len(cols) > 0 && rapid.IntRange(0, 4).Draw(t, "prefixfamily") == 0 {
